@@ -18,6 +18,7 @@ package chain
 import (
 	"bufio"
 	"bytes"
+	"crypto/sha256"
 	"context"
 	"encoding/base64"
 	"encoding/binary"
@@ -40,6 +41,7 @@ import (
 	"github.com/aergoio/aergo/v2/contract/system"
 	"github.com/aergoio/aergo/v2/internal/common"
 	"github.com/aergoio/aergo/v2/internal/enc/base58"
+	"github.com/aergoio/aergo/v2/internal/enc/proto"
 	"github.com/aergoio/aergo/v2/state"
 	"github.com/aergoio/aergo/v2/state/statedb"
 	"github.com/aergoio/aergo/v2/types"
@@ -60,6 +62,9 @@ type c14Case struct {
 	AcctLen   int    `json:"acctlen"` // >0: replace Body.Account by that many bytes (unsigned path)
 	RcptRaw   string `json:"rcptraw"` // hex: replace Body.Recipient
 	BadHash   bool   `json:"badhash"`
+	AmtRaw    string `json:"amtraw"`   // hex: raw Body.Amount bytes (any length)
+	PriceRaw  string `json:"priceraw"` // hex: raw Body.GasPrice bytes
+	PayFill   int    `json:"payfill"`  // >0: append that many 'x' bytes to the payload (size boundary cases)
 	BlockNo   uint64 `json:"bno"`    // >0: block number of the block this transaction is executed in
 	Commit    bool   `json:"commit"` // before this case: system.CommitParams(true), as when a block is connected
 }
@@ -91,6 +96,8 @@ type c14Obs struct {
 	Args     interface{} `json:"args"` // tagged
 	NArgs    int         `json:"nargs"`
 	JMarshal string      `json:"jmarshal"` // hex of json.Marshal(ci.Args[1:])
+	ProtoSize int        `json:"proto_size"`
+	PayloadLen int       `json:"payload_len"`
 	Strs     []c14Str    `json:"strs"`
 	View     c14View     `json:"view"`
 	VTypes   string      `json:"v_types"`
@@ -363,7 +370,9 @@ func TestVerifC14Engine(t *testing.T) {
 	const nAcct = 4
 	accts := make([]*c14Acct, nAcct)
 	for i := range accts {
-		k, _ := btcec.NewPrivateKey()
+		// deterministic keys: the same accounts as in the mempool engine
+		h := sha256.Sum256([]byte(fmt.Sprintf("verif-c14-account-%d", i)))
+		k, _ := btcec.PrivKeyFromBytes(h[:])
 		accts[i] = &c14Acct{k, keycrypto.GenerateAddress(k.PubKey().ToECDSA())}
 	}
 	// the addresses are announced first so that the generator can name them in payloads
@@ -422,6 +431,9 @@ func TestVerifC14Engine(t *testing.T) {
 		for i, ac := range accts { // "@A0".."@A3" stand for the engine's account addresses
 			payload = bytes.ReplaceAll(payload, []byte(fmt.Sprintf("@A%d", i)), []byte(types.EncodeAddress(ac.addr)))
 		}
+		if c.PayFill > 0 {
+			payload = append(payload, bytes.Repeat([]byte{'x'}, c.PayFill)...)
+		}
 		amt, _ := new(big.Int).SetString(c.Amount, 10)
 		if amt == nil {
 			amt = new(big.Int)
@@ -434,6 +446,12 @@ func TestVerifC14Engine(t *testing.T) {
 			Amount: amt.Bytes(), Payload: payload, Type: types.TxType(c.Type), ChainIdHash: cidh}}
 		if len(tx.Body.Recipient) == 0 {
 			tx.Body.Recipient = nil
+		}
+		if c.AmtRaw != "" {
+			tx.Body.Amount, _ = hex.DecodeString(c.AmtRaw)
+		}
+		if c.PriceRaw != "" {
+			tx.Body.GasPrice, _ = hex.DecodeString(c.PriceRaw)
 		}
 		if c.RcptRaw != "" {
 			tx.Body.Recipient, _ = hex.DecodeString(c.RcptRaw)
@@ -448,6 +466,8 @@ func TestVerifC14Engine(t *testing.T) {
 		}
 
 		var o c14Obs
+		o.ProtoSize = proto.Size(tx)
+		o.PayloadLen = len(payload)
 		var ci types.CallInfo
 		o.DecodeOK = json.Unmarshal(payload, &ci) == nil
 		var cip *types.CallInfo
